@@ -190,3 +190,47 @@ End Tx.
 
 Arguments mkConn {W}.
 Arguments mkWorld {W}.
+
+(* ------------------------------------------------------------------------------------------------ *)
+(** * The Database.* convenience methods
+
+    Each of them is `@retry_transient_mysql_errors async def h(self, sql, args...):
+                       async with self.start(...) as tx: [return] await tx.<method>(sql, args...)`
+    i.e. ONE transaction of the model above around the statements the Transaction method issues, retried as a whole.
+    The single-statement methods issue one statement; `execute_many(sql, args_array)` hands the WHOLE argument array
+    to `cursor.executemany`, which aiomysql sends as one statement per row (or, for INSERT ... VALUES, as a sequence of
+    multi-row statements bounded by max_stmt_length — see [chunks_of]).  A call is described by what it is asked to do. *)
+Inductive helper_call (W : Type) : Type :=
+| HJustExecute (x : W)
+| HExecuteUpdate (x : W)
+| HExecuteInsertone (x : W)
+| HExecuteAndFetchone (x : W)
+| HSelectAndFetchone (x : W)
+| HCheckCallProcedure (x : W)
+| HExecuteMany (rows : list W).                (* an argument array of ANY length *)
+Arguments HJustExecute {W}. Arguments HExecuteUpdate {W}. Arguments HExecuteInsertone {W}.
+Arguments HExecuteAndFetchone {W}. Arguments HSelectAndFetchone {W}. Arguments HCheckCallProcedure {W}.
+Arguments HExecuteMany {W}.
+
+(** the statements of the helper's single transaction (hand specification; the generated [helper_plan] is proved equal) *)
+Definition helper_stmts {W} (c : helper_call W) : list W :=
+  match c with
+  | HJustExecute x | HExecuteUpdate x | HExecuteInsertone x | HExecuteAndFetchone x | HSelectAndFetchone x
+  | HCheckCallProcedure x => [x]
+  | HExecuteMany rows => rows
+  end.
+
+(** aiomysql's bulk path: the argument array cut into wire statements of (at most) k rows; [fuel] >= length suffices *)
+Fixpoint chunks_of {A} (fuel k : nat) (l : list A) : list (list A) :=
+  match fuel with
+  | O => []
+  | S fuel' => match l with [] => [] | _ :: _ => firstn k l :: chunks_of fuel' k (skipn k l) end
+  end.
+
+(** lossless run-length view of an integer log (maximal runs a, a+1, ..., a+len-1), used to print long logs *)
+Fixpoint runs_aux (l : list Z) (a len : Z) : list (Z * Z) :=
+  match l with
+  | [] => [(a, len)]
+  | x :: r => if x =? a + len then runs_aux r a (len + 1) else (a, len) :: runs_aux r x 1
+  end.
+Definition runs (l : list Z) : list (Z * Z) := match l with [] => [] | x :: r => runs_aux r x 1 end.
